@@ -307,6 +307,7 @@ class TokenizerState:
         self.continued = False
         self.indents = [0]
         self.last_line = ""
+        self.blank_lnum = 0  # number of the last line that held only blanks or a comment
         self.line = ""
         self.pos = 0
         self.max = 0
@@ -449,6 +450,7 @@ def next_statement(state: TokenizerState) -> Generator[TokenInfo, None, bool | N
             (state.lnum, len(state.line)),
             state.line,
         )
+        state.blank_lnum = state.lnum
         return True  # continue
 
     if column > state.indents[-1]:  # count indents or dedents
@@ -526,7 +528,8 @@ def next_psuedo_matches(state: TokenizerState) -> TokenInfo | None:
 
 def next_end_tokens(state: TokenizerState) -> Iterator[TokenInfo]:
     # Add an implicit NEWLINE if the input doesn't end in one
-    if state.last_line and state.last_line[-1] not in "\r\n" and not state.last_line.strip().startswith("#"):
+    # (a comment-only last line already ended in its own NL; what the line looks like does not tell: it may lie in a string)
+    if state.last_line and state.last_line[-1] not in "\r\n" and state.blank_lnum != state.lnum - 1:
         yield TokenInfo(
             Token.NEWLINE,
             "",
